@@ -22,6 +22,7 @@ type Env struct {
 	bound  map[string]Val
 	pkg    *types.Package
 	errs   *[]string
+	derefs map[string]func(*State) Val
 	localsFirst bool // invariants/asserts: a name denotes the current value of the variable
 	inOld  bool
 }
@@ -68,6 +69,12 @@ func (e *Env) typeByName(n string) types.Type {
 	}
 	if n == "error" {
 		return types.Universe.Lookup("error").Type()
+	}
+	if strings.HasPrefix(n, "ptr_") {
+		if t := e.typeByName(n[4:]); t != nil {
+			return types.NewPointer(t)
+		}
+		return nil
 	}
 	if e.pkg != nil {
 		if o := e.pkg.Scope().Lookup(n); o != nil {
@@ -645,6 +652,41 @@ func (e *Env) call(x *SExpr) Val {
 		n := "E!" + typeKey(et)
 		fc.regArr(n, "(Array Int (Array "+m.idxSort()+" "+m.scalarSort(et)+"))")
 		return Val{T: types.NewArray(et, 0), S: sx("select", e.state.get(n), v.Sub[0].S)}
+	case "deref":
+		if x.Args[0].Op == "ident" && e.derefs != nil {
+			if f, ok := e.derefs[x.Args[0].Name]; ok {
+				return f(e.state)
+			}
+		}
+		return e.errorf("deref(%s): not a pointer argument", x.Args[0].String())
+	case "addr":
+		// addr(x.f): the pointer value &x.f
+		if x.Args[0].Op != "sel" {
+			return e.errorf("addr(x.f) expected")
+		}
+		base := e.tr(x.Args[0].Args[0])
+		var stT types.Type
+		if p, ok := base.T.Underlying().(*types.Pointer); ok {
+			stT = p.Elem()
+		} else if kindOf(base.T) == KStruct {
+			stT = base.T
+		}
+		if stT == nil {
+			return e.errorf("addr: not a struct")
+		}
+		st := stT.Underlying().(*types.Struct)
+		for i := 0; i < st.NumFields(); i++ {
+			if st.Field(i).Name() == x.Args[0].Name {
+				ft := st.Field(i).Type()
+				if kindOf(ft) == KStruct || kindOf(ft) == KArray {
+					return Val{T: types.NewPointer(ft), S: fc.embRef(stT, i, base.S)}
+				}
+				n := "fptr!" + structName(stT) + "." + st.Field(i).Name()
+				fc.declareFun(n, "(Int) Int")
+				return Val{T: types.NewPointer(ft), S: sx(sym(n), base.S)}
+			}
+		}
+		return e.errorf("addr: no field %s", x.Args[0].Name)
 	case "row8of", "row64of":
 		v := e.tr(x.Args[0])
 		et := types.Type(tByte)
